@@ -26,6 +26,61 @@ use crate::{
     void::Void,
 };
 
+fn bad_json(what: &str) -> StoryError {
+    StoryError::BadJson(format!("Malformed JSON: {what}"))
+}
+
+pub(crate) fn token_str<'a>(v: &'a serde_json::Value, what: &str) -> Result<&'a str, StoryError> {
+    match v.as_str() {
+        Some(s) => Ok(s),
+        None => Err(bad_json(what)),
+    }
+}
+
+pub(crate) fn token_i32(v: &serde_json::Value, what: &str) -> Result<i32, StoryError> {
+    match v.as_i64() {
+        Some(n) if n >= i32::MIN as i64 && n <= i32::MAX as i64 => Ok(n as i32),
+        _ => Err(bad_json(what)),
+    }
+}
+
+pub(crate) fn token_usize(v: &serde_json::Value, what: &str) -> Result<usize, StoryError> {
+    match v.as_u64() {
+        Some(n) if n <= u32::MAX as u64 => Ok(n as usize),
+        _ => Err(bad_json(what)),
+    }
+}
+
+pub(crate) fn token_array<'a>(
+    v: &'a serde_json::Value,
+    what: &str,
+) -> Result<&'a Vec<serde_json::Value>, StoryError> {
+    match v.as_array() {
+        Some(a) => Ok(a),
+        None => Err(bad_json(what)),
+    }
+}
+
+pub(crate) fn token_object<'a>(
+    v: &'a serde_json::Value,
+    what: &str,
+) -> Result<&'a Map<String, serde_json::Value>, StoryError> {
+    match v.as_object() {
+        Some(o) => Ok(o),
+        None => Err(bad_json(what)),
+    }
+}
+
+fn member<'a>(
+    obj: &'a Map<String, serde_json::Value>,
+    key: &str,
+) -> Result<&'a serde_json::Value, StoryError> {
+    match obj.get(key) {
+        Some(v) => Ok(v),
+        None => Err(bad_json(key)),
+    }
+}
+
 pub fn load_from_string(
     s: &str,
 ) -> Result<(i32, Rc<Container>, Rc<ListDefinitionsOrigin>), StoryError> {
@@ -34,15 +89,15 @@ pub fn load_from_string(
         Err(_) => return Err(StoryError::BadJson("Story not in JSON format.".to_owned())),
     };
 
-    let version_opt = json.get("inkVersion");
-
-    if version_opt.is_none() || !version_opt.unwrap().is_number() {
-        return Err(StoryError::BadJson(
-            "ink version number not found. Are you sure it's a valid .ink.json file?".to_owned(),
-        ));
-    }
-
-    let version: i32 = version_opt.unwrap().as_i64().unwrap().try_into().unwrap();
+    let version: i32 = match json.get("inkVersion") {
+        Some(v) if v.is_number() => token_i32(v, "inkVersion")?,
+        _ => {
+            return Err(StoryError::BadJson(
+                "ink version number not found. Are you sure it's a valid .ink.json file?"
+                    .to_owned(),
+            ));
+        }
+    };
 
     if version > INK_VERSION_CURRENT {
         return Err(StoryError::BadJson(
@@ -72,15 +127,14 @@ pub fn load_from_string(
 
     let main_content_container = jtoken_to_runtime_object(root_token, None)?;
 
-    let main_content_container = main_content_container.into_any().downcast::<Container>();
-
-    if main_content_container.is_err() {
-        return Err(StoryError::BadJson(
-            "Root node for ink is not a container?".to_owned(),
-        ));
+    let main_content_container = match main_content_container.into_any().downcast::<Container>() {
+        Ok(c) => c,
+        Err(_) => {
+            return Err(StoryError::BadJson(
+                "Root node for ink is not a container?".to_owned(),
+            ));
+        }
     };
-
-    let main_content_container = main_content_container.unwrap(); // unwrap: checked for err above
 
     Ok((version, main_content_container, list_definitions))
 }
@@ -97,11 +151,13 @@ pub fn jtoken_to_runtime_object(
         serde_json::Value::Bool(value) => Ok(Rc::new(Value::new::<bool>(value.to_owned()))),
         serde_json::Value::Number(_) => {
             if token.is_i64() {
-                let val: i32 = token.as_i64().unwrap().try_into().unwrap();
+                let val: i32 = token_i32(token, "integer out of range")?;
                 Ok(Rc::new(Value::new::<i32>(val)))
             } else {
-                let val: f32 = token.as_f64().unwrap() as f32;
-                Ok(Rc::new(Value::new::<f32>(val)))
+                match token.as_f64() {
+                    Some(val) => Ok(Rc::new(Value::new::<f32>(val as f32))),
+                    None => Err(bad_json("number")),
+                }
             }
         }
 
@@ -109,10 +165,9 @@ pub fn jtoken_to_runtime_object(
             let str = value.as_str();
 
             // String value
-            let first_char = str.chars().next().unwrap();
-            if first_char == '^' {
-                return Ok(Rc::new(Value::new::<&str>(&str[1..])));
-            } else if first_char == '\n' && str.len() == 1 {
+            if let Some(text) = str.strip_prefix('^') {
+                return Ok(Rc::new(Value::new::<&str>(text)));
+            } else if str == "\n" {
                 return Ok(Rc::new(Value::new::<&str>("\n")));
             }
 
@@ -162,12 +217,12 @@ pub fn jtoken_to_runtime_object(
             let prop_value = obj.get("^var");
 
             if let Some(v) = prop_value {
-                let variable_name = v.as_str().unwrap();
+                let variable_name = token_str(v, "^var")?;
                 let mut contex_index = -1;
                 let prop_value = obj.get("ci");
 
                 if let Some(v) = prop_value {
-                    contex_index = v.as_i64().unwrap() as i32;
+                    contex_index = token_i32(v, "ci")?;
                 }
 
                 let var_ptr = Rc::new(Value::new_variable_pointer(variable_name, contex_index));
@@ -208,8 +263,8 @@ pub fn jtoken_to_runtime_object(
                 }
             }
 
-            if is_divert {
-                let target = prop_value.unwrap().as_str().unwrap().to_string();
+            if let (true, Some(target_token)) = (is_divert, prop_value) {
+                let target = token_str(target_token, "divert target")?.to_string();
 
                 let mut var_divert_name: Option<String> = None;
                 let mut target_path: Option<String> = None;
@@ -229,7 +284,7 @@ pub fn jtoken_to_runtime_object(
                 if external {
                     prop_value = obj.get("exArgs");
                     if let Some(prop_value) = prop_value {
-                        external_args = prop_value.as_i64().unwrap() as usize;
+                        external_args = token_usize(prop_value, "exArgs")?;
                     }
                 }
 
@@ -247,30 +302,27 @@ pub fn jtoken_to_runtime_object(
             // Choice
             let prop_value = obj.get("*");
             if let Some(cp) = prop_value {
-                let mut flags = 0;
-                let path_string_on_choice = cp.as_str().unwrap();
+                let mut flags: i32 = 0;
+                let path_string_on_choice = token_str(cp, "choice point path")?;
                 let prop_value = obj.get("flg");
                 if let Some(f) = prop_value {
-                    flags = f.as_u64().unwrap();
+                    flags = token_i32(f, "flg")?;
                 }
 
-                return Ok(Rc::new(ChoicePoint::new(
-                    flags as i32,
-                    path_string_on_choice,
-                )));
+                return Ok(Rc::new(ChoicePoint::new(flags, path_string_on_choice)));
             }
 
             // // Variable reference
             let prop_value = obj.get("VAR?");
             if let Some(name) = prop_value {
-                return Ok(Rc::new(VariableReference::new(name.as_str().unwrap())));
+                return Ok(Rc::new(VariableReference::new(token_str(name, "VAR?")?)));
             }
 
             let prop_value = obj.get("CNT?");
             if let Some(v) = prop_value {
-                return Ok(Rc::new(VariableReference::from_path_for_count(
-                    v.as_str().unwrap(),
-                )));
+                return Ok(Rc::new(VariableReference::from_path_for_count(token_str(
+                    v, "CNT?",
+                )?)));
             }
 
             // // Variable assignment
@@ -292,8 +344,8 @@ pub fn jtoken_to_runtime_object(
                 }
             }
 
-            if is_var_ass {
-                let var_name = prop_value.unwrap().as_str().unwrap();
+            if let (true, Some(name_token)) = (is_var_ass, prop_value) {
+                let var_name = token_str(name_token, "variable name")?;
                 let prop_value = obj.get("re");
                 let is_new_decl = prop_value.is_none();
 
@@ -308,32 +360,32 @@ pub fn jtoken_to_runtime_object(
             // Legacy Tag
             prop_value = obj.get("#");
             if let Some(prop_value) = prop_value {
-                return Ok(Rc::new(Tag::new(prop_value.as_str().unwrap())));
+                return Ok(Rc::new(Tag::new(token_str(prop_value, "#")?)));
             }
 
             // List value
             prop_value = obj.get("list");
 
             if let Some(pv) = prop_value {
-                let list_content = pv.as_object().unwrap();
+                let list_content = token_object(pv, "list")?;
                 let mut raw_list = InkList::new();
 
                 prop_value = obj.get("origins");
 
                 if let Some(o) = prop_value {
-                    let names_as_objs = o.as_array().unwrap();
+                    let names_as_objs = token_array(o, "origins")?;
 
-                    let names = names_as_objs
-                        .iter()
-                        .map(|e| e.as_str().unwrap().to_string())
-                        .collect();
+                    let mut names = Vec::new();
+                    for e in names_as_objs {
+                        names.push(token_str(e, "origin name")?.to_string());
+                    }
 
                     raw_list.set_initial_origin_names(names);
                 }
 
                 for (k, v) in list_content {
                     let item = InkListItem::from_full_name(k);
-                    raw_list.items.insert(item, v.as_i64().unwrap() as i32);
+                    raw_list.items.insert(item, token_i32(v, "list item value")?);
                 }
 
                 return Ok(Rc::new(Value::new::<InkList>(raw_list)));
@@ -360,7 +412,10 @@ fn jarray_to_container(
     //  - named content
     //  - a "#f" key with the countFlags
     // (if either exists at all, otherwise null)
-    let terminating_obj = jarray[jarray.len() - 1].as_object();
+    let terminating_obj = match jarray.last() {
+        Some(last) => last.as_object(),
+        None => return Err(bad_json("empty container array")),
+    };
     let mut name: Option<String> = name;
     let mut flags = 0;
 
@@ -369,16 +424,16 @@ fn jarray_to_container(
     if let Some(terminating_obj) = terminating_obj {
         for (k, v) in terminating_obj {
             match k.as_str() {
-                "#f" => flags = v.as_i64().unwrap().try_into().unwrap(),
-                "#n" => name = Some(v.as_str().unwrap().to_string()),
+                "#f" => flags = token_i32(v, "#f")?,
+                "#n" => name = Some(token_str(v, "#n")?.to_string()),
                 k => {
-                    let named_content_item =
-                        jtoken_to_runtime_object(v, Some(k.to_string())).unwrap();
+                    let named_content_item = jtoken_to_runtime_object(v, Some(k.to_string()))?;
 
-                    let named_sub_container = named_content_item
-                        .into_any()
-                        .downcast::<Container>()
-                        .unwrap();
+                    let named_sub_container =
+                        match named_content_item.into_any().downcast::<Container>() {
+                            Ok(c) => c,
+                            Err(_) => return Err(bad_json("named content is not a container")),
+                        };
 
                     named_only_content.insert(k.to_string(), named_sub_container);
                 }
@@ -416,12 +471,13 @@ pub fn jarray_to_runtime_obj_list(
 }
 
 fn jobject_to_choice(obj: &Map<String, serde_json::Value>) -> Result<Rc<dyn RTObject>, StoryError> {
-    let text = obj.get("text").unwrap().as_str().unwrap();
-    let index = obj.get("index").unwrap().as_u64().unwrap() as usize;
-    let source_path = obj.get("originalChoicePath").unwrap().as_str().unwrap();
-    let original_thread_index = obj.get("originalThreadIndex").unwrap().as_i64().unwrap() as usize;
-    let path_string_on_choice = obj.get("targetPath").unwrap().as_str().unwrap();
-    let choice_tags = jarray_to_tags(obj);
+    let text = token_str(member(obj, "text")?, "text")?;
+    let index = token_usize(member(obj, "index")?, "index")?;
+    let source_path = token_str(member(obj, "originalChoicePath")?, "originalChoicePath")?;
+    let original_thread_index =
+        token_usize(member(obj, "originalThreadIndex")?, "originalThreadIndex")?;
+    let path_string_on_choice = token_str(member(obj, "targetPath")?, "targetPath")?;
+    let choice_tags = jarray_to_tags(obj)?;
 
     Ok(Rc::new(Choice::new_from_json(
         path_string_on_choice,
@@ -433,18 +489,18 @@ fn jobject_to_choice(obj: &Map<String, serde_json::Value>) -> Result<Rc<dyn RTOb
     )))
 }
 
-fn jarray_to_tags(obj: &Map<String, serde_json::Value>) -> Vec<String> {
+fn jarray_to_tags(obj: &Map<String, serde_json::Value>) -> Result<Vec<String>, StoryError> {
     let mut tags: Vec<String> = Vec::new();
 
     let prop_value = obj.get("tags");
     if let Some(pv) = prop_value {
-        let tags_array = pv.as_array().unwrap();
+        let tags_array = token_array(pv, "tags")?;
         for tag in tags_array {
-            tags.push(tag.as_str().unwrap().to_string());
+            tags.push(token_str(tag, "tag")?.to_string());
         }
     }
 
-    tags
+    Ok(tags)
 }
 
 pub fn jtoken_to_list_definitions(
@@ -452,11 +508,11 @@ pub fn jtoken_to_list_definitions(
 ) -> Result<ListDefinitionsOrigin, StoryError> {
     let mut all_defs: Vec<ListDefinition> = Vec::with_capacity(0);
 
-    for (name, list_def_json) in def.as_object().unwrap() {
+    for (name, list_def_json) in token_object(def, "listDefs")? {
         // Cast (string, object) to (string, int) for items
         let mut items: HashMap<String, i32> = HashMap::new();
-        for (k, v) in list_def_json.as_object().unwrap() {
-            items.insert(k.clone(), v.as_u64().unwrap() as i32);
+        for (k, v) in token_object(list_def_json, "list definition")? {
+            items.insert(k.clone(), token_i32(v, "list item value")?);
         }
 
         let def = ListDefinition::new(name.clone(), items);
@@ -472,13 +528,14 @@ pub(crate) fn jobject_to_hashmap_values(
     let mut dict: HashMap<String, Rc<Value>> = HashMap::new();
 
     for (k, v) in jobj.iter() {
-        dict.insert(
-            k.clone(),
-            jtoken_to_runtime_object(v, None)?
-                .into_any()
-                .downcast::<Value>()
-                .unwrap(),
-        );
+        let value = match jtoken_to_runtime_object(v, None)?
+            .into_any()
+            .downcast::<Value>()
+        {
+            Ok(value) => value,
+            Err(_) => return Err(bad_json("variable value")),
+        };
+        dict.insert(k.clone(), value);
     }
 
     Ok(dict)
@@ -490,7 +547,7 @@ pub(crate) fn jobject_to_int_hashmap(
     let mut dict: HashMap<String, i32> = HashMap::new();
 
     for (k, v) in jobj.iter() {
-        dict.insert(k.clone(), v.as_i64().unwrap() as i32);
+        dict.insert(k.clone(), token_i32(v, "count")?);
     }
 
     Ok(dict)
